@@ -405,6 +405,25 @@ class ModAnalysis:
         return s
 
     # ------------------------------------------------------------------------------------
+    def out_fresh_params(self, gname, _depth=0):
+        """indices of the parameters p of library function gname for which every `*p = X` stores fresh memory (or NULL)"""
+        cache = self.__dict__.setdefault("_out_fresh_cache", {})
+        if gname in cache:
+            return cache[gname]
+        cache[gname] = []
+        g = self.prog.fn(gname)
+        out = []
+        if g.body is not None and _depth < 3:
+            from . import query as _q
+            for pi, q in enumerate(g.params):
+                if not (q.get("ct") or "").endswith("**") and not (q.get("ct") or "").endswith("* *"):
+                    continue
+                sts = [(st, rhs) for lhs, rhs, st, kind in _q.stores(g) if kind == "=" and render(lhs) == "*" + q["name"] and rhs is not None]
+                if sts and all(self.is_fresh_expr(g, rhs, at=st)[0] for st, rhs in sts):
+                    out.append(pi)
+        cache[gname] = out
+        return out
+
     def is_fresh_expr(self, fn, e, _seen=None, at=None):
         """Fresh(e): result of an allocator / of a function returning fresh memory, NULL, or a
         local all of whose assignments are fresh.  Returns (bool, reason).  With `at` (the statement that uses e) only the
@@ -451,6 +470,14 @@ class ModAnalysis:
             # asprintf(&v, ...) style out-parameters
             for c in fn.calls():
                 for cname, eff in self.callee_effects(c, fn):
+                    if isinstance(eff, Summary) and cname != fn.name and self.prog.has_fn(cname):
+                        # a function of the library that hands fresh memory back through an out-parameter (`*list = result;`)
+                        for j in self.out_fresh_params(cname):
+                            args = c.call_args()
+                            if j < len(args):
+                                a = args[j].strip()
+                                if a.k == "UnaryOperator" and a.j.get("op") == "&" and render(a.children[0]) == name:
+                                    defs.append(None)
                     if isinstance(eff, dict):
                         for j in eff.get("out_fresh", []):
                             args = c.call_args()
